@@ -1,4 +1,4 @@
 SPECIFICATION Spec
-CONSTANTS MaxPort = 5  MaxItems = 3  Lemma = TRUE  Mut = "none"
+CONSTANTS MaxPort = 4  MaxItems = 3  Lemma = TRUE  Mut = "none"
 INVARIANT NoViolation
 CHECK_DEADLOCK FALSE
